@@ -71,6 +71,7 @@ class Check:
         self.analysed = {}
         self.undecided = []
         self.only_key = None  # replay filter
+        self.deferred = []  # analysis errors of one rule that must not hide violations found by other rules
 
     # -- recording ---------------------------------------------------------------------------------------------
     def rule(self, rule, text):
@@ -99,6 +100,9 @@ class Check:
     def require(self, cond, msg):
         if not cond:
             raise AnalysisError(msg)
+
+    def defer(self, msg):
+        self.deferred.append(msg)
 
     def count(self, what, n):
         self.analysed[what] = self.analysed.get(what, 0) + n
@@ -154,6 +158,10 @@ class Check:
                 print(f'      construct: {f.construct}')
             lines.append(f'VIOLATION property={self.pid} replay={path}')
 
+        if self.deferred and not lines:
+            raise AnalysisError(self.deferred[0] + (f' (+{len(self.deferred) - 1} more)' if len(self.deferred) > 1 else ''))
+        for d in self.deferred:
+            print(f'ANALYSIS-NOTE (a rule could not be established, reported violations stand): {d}')
         self.write_evidence(len(new))
         for ln in lines:
             print(ln)
